@@ -1,23 +1,705 @@
-// scratch probe (will be replaced)
-use props::ccl::abstract_domain::{AbstractDomain, BricksDomain};
-use serde_json::json;
-fn main() {
-    let which = std::env::args().nth(1).unwrap_or_default();
-    let x: BricksDomain = serde_json::from_value(json!({"Value":[{"Value":{"sequence":["a"],"min":1,"max":2}}]})).unwrap();
-    println!("{}", serde_json::to_string(&x).unwrap());
-    if which == "merge" {
-        let a = BricksDomain::from("a".to_string());
-        let aa: BricksDomain = serde_json::from_value(json!({"Value":[{"Value":{"sequence":["a"],"min":1,"max":1}},{"Value":{"sequence":["a"],"min":1,"max":1}}]})).unwrap();
-        println!("merging {a} with {aa}");
-        let m = a.merge(&aa);
-        println!("merged {m}");
-        return;
+//! C06 — the string abstractions (bricks, character inclusion) over-approximate.
+//!
+//! Shape E: every value of an explicitly enumerated finite family (brick lists over a small
+//! brick alphabet; all character-inclusion values over {a,b,c}) is run through the real
+//! `normalize`, `merge`, `widen`, `append_string_domain`, `From<String>` and judged by bounded
+//! concretisation (`shared/bricks_lang.rs`): the set of all strings of length <= 6 over {a,b}
+//! a value represents. Under a common length cut, equality / inclusion of these sets is exact.
+//!
+//! * `L6(normalize(x)) = L6(x)`
+//! * `L6(x)·L6(y)` (cut at 6) `⊆ L6(append(x,y))`
+//! * `L6(x) ∪ L6(y) ⊆ L6(merge(x,y))`, same for `widen`
+//! * character inclusion: a string is represented iff certain ⊆ chars(s) ⊆ possible; merge and
+//!   append as above on character sets; `From<String>` represents its argument.
+//!
+//! Real code is executed in **worker subprocesses** (the same binary with `VERIF_C06_WORKER=1`),
+//! on a dedicated thread whose *CPU time* is watched (`pthread_getcpuclockid`): a call that does
+//! not return within a few ms of CPU time (normal calls need microseconds) is parked forever, the
+//! case is re-run alone with a long limit to confirm, and reported as `nontermination <op>` — it
+//! can never hang or crash the explorer. Panics are caught in the worker and reported as
+//! `panic <file:line> (<op>)`; a worker that dies from a signal is `crash signal <n> (<op>)`.
+
+#[path = "../shared/bricks_lang.rs"]
+mod bricks_lang;
+
+use bricks_lang::*;
+use mcx::{catch, par_for, Ctx};
+use props::ccl::abstract_domain::{AbstractDomain, BricksDomain, CharacterInclusionDomain, DomainInsertion};
+use serde::de::DeserializeOwned;
+use serde::{Deserialize, Serialize};
+use serde_json::{json, Value};
+use std::io::{BufRead, BufReader, Write};
+use std::process::{Child, ChildStdin, ChildStdout, Command, Stdio};
+use std::sync::atomic::{AtomicU64, Ordering};
+
+#[derive(Serialize, Deserialize, Clone, Debug)]
+enum Case {
+    Normalize { x: BricksSpec },
+    Merge { x: BricksSpec, y: BricksSpec },
+    Widen { x: BricksSpec, y: BricksSpec },
+    Append { x: BricksSpec, y: BricksSpec },
+    CiMerge { x: CiSpec, y: CiSpec },
+    CiAppend { x: CiSpec, y: CiSpec },
+    CiFrom { s: String },
+}
+impl Case {
+    fn op(&self) -> &'static str {
+        match self {
+            Case::Normalize { .. } => "BricksDomain::normalize",
+            Case::Merge { .. } => "BricksDomain::merge",
+            Case::Widen { .. } => "BricksDomain::widen",
+            Case::Append { .. } => "BricksDomain::append_string_domain",
+            Case::CiMerge { .. } => "CharacterInclusionDomain::merge",
+            Case::CiAppend { .. } => "CharacterInclusionDomain::append_string_domain",
+            Case::CiFrom { .. } => "CharacterInclusionDomain::from",
+        }
     }
-    let h = std::thread::spawn(move || {
-        let n = x.normalize();
-        println!("normalized: {n}");
+}
+
+/// What a worker reports for one case.
+#[derive(Serialize, Deserialize, Default, Debug)]
+struct Report {
+    viol: Vec<(String, Value)>,
+    transitions: u64,
+    evals: u64,
+    nontrivial: bool,
+    outcome: u64,
+    stats: Vec<String>,
+}
+
+// ------------------------------------------------------------------ CPU-time watch (worker side)
+
+mod sys {
+    #[repr(C)]
+    pub struct Timespec {
+        pub tv_sec: i64,
+        pub tv_nsec: i64,
+    }
+    extern "C" {
+        pub fn pthread_self() -> u64;
+        pub fn pthread_kill(thread: u64, sig: i32) -> i32;
+        pub fn pthread_getcpuclockid(thread: u64, clock_id: *mut i32) -> i32;
+        pub fn clock_gettime(clock_id: i32, tp: *mut Timespec) -> i32;
+        pub fn signal(signum: i32, handler: usize) -> usize;
+        pub fn pause() -> i32;
+    }
+    pub const SIGUSR1: i32 = 10;
+    /// Signal handler that never returns: the thread it runs on sleeps forever (no CPU use).
+    pub extern "C" fn park_forever(_sig: i32) {
+        loop {
+            unsafe {
+                pause();
+            }
+        }
+    }
+    /// CPU time consumed so far by the thread behind `clock_id`, in microseconds.
+    pub fn cpu_us(clock_id: i32) -> u64 {
+        let mut ts = Timespec { tv_sec: 0, tv_nsec: 0 };
+        if unsafe { clock_gettime(clock_id, &mut ts) } != 0 {
+            eprintln!("MACHINERY-ERROR: clock_gettime on the thread CPU clock failed");
+            std::process::exit(2);
+        }
+        ts.tv_sec as u64 * 1_000_000 + ts.tv_nsec as u64 / 1000
+    }
+}
+const SIGKILL: i32 = 9;
+
+// ------------------------------------------------------------------ spec <-> real
+
+fn to_real<S: Serialize, R: DeserializeOwned>(s: &S) -> R {
+    serde_json::from_value(serde_json::to_value(s).unwrap()).unwrap_or_else(|e| mcx::machinery(&format!("cannot build real value: {e}")))
+}
+fn from_real<R: Serialize, S: DeserializeOwned>(r: &R) -> S {
+    serde_json::from_value(serde_json::to_value(r).unwrap()).unwrap_or_else(|e| mcx::machinery(&format!("cannot read real value: {e}")))
+}
+fn site(msg: &str) -> String {
+    let s = mcx::panic_site(msg);
+    match s.find("cwe_checker_lib/src/") {
+        Some(i) => s[i + "cwe_checker_lib/src/".len()..].to_string(),
+        None => s,
+    }
+}
+fn short(v: &impl Serialize) -> Value {
+    let s = serde_json::to_string(v).unwrap();
+    if s.len() > 900 {
+        json!(format!("{}...", &s[..900]))
+    } else {
+        serde_json::to_value(v).unwrap()
+    }
+}
+fn in_normal_form(x: &BricksSpec) -> bool {
+    match x {
+        BricksSpec::Top => true,
+        BricksSpec::Value(b) => b.iter().all(|b| match b {
+            BrickSpec::Top => true,
+            BrickSpec::Value(f) => (f.min, f.max) == (1, 1) || (f.min == 0 && f.max > 0),
+        }),
+    }
+}
+
+// ------------------------------------------------------------------ the oracle (runs in the worker)
+
+fn judge(case: &Case) -> Report {
+    let mut r = Report::default();
+    let op = case.op();
+    match case {
+        Case::Normalize { x } => {
+            let xr: BricksDomain = to_real(x);
+            let lx = x.lang();
+            r.transitions = 1;
+            match catch(|| xr.normalize()) {
+                Err(p) => r.viol.push((format!("panic {} ({op})", site(&p)), json!({"panic": p}))),
+                Ok(n) => {
+                    let ns: BricksSpec = from_real(&n);
+                    let ln = ns.lang();
+                    r.evals = 1;
+                    if ln != lx {
+                        r.viol.push((
+                            "normalize-language".into(),
+                            json!({"normalized": short(&ns), "language_before": show(lx), "language_after": show(ln), "lost": show(lx & !ln), "gained": show(ln & !lx)}),
+                        ));
+                    }
+                    r.nontrivial = ns != *x && lx != 0 && lx != ALL;
+                    r.outcome = mcx::fixed_hash(&("normalize", ln, ns.len(), ns == *x));
+                    if !in_normal_form(&ns) {
+                        r.stats.push("normalize: result not of the documented form [T]^{1,1} / [T]^{0,max>0} (not required by the property)".into());
+                    }
+                }
+            }
+        }
+        Case::Merge { x, y } | Case::Widen { x, y } => {
+            let is_merge = matches!(case, Case::Merge { .. });
+            let (xr, yr): (BricksDomain, BricksDomain) = (to_real(x), to_real(y));
+            let (lx, ly) = (x.lang(), y.lang());
+            r.transitions = 1;
+            match catch(|| if is_merge { xr.merge(&yr) } else { xr.widen(&yr) }) {
+                Err(p) => r.viol.push((format!("panic {} ({op})", site(&p)), json!({"panic": p}))),
+                Ok(m) => {
+                    let ms: BricksSpec = from_real(&m);
+                    let lm = ms.lang();
+                    r.evals = 2;
+                    if (lx | ly) & !lm != 0 {
+                        r.viol.push((
+                            format!("{}-overapprox", if is_merge { "merge" } else { "widen" }),
+                            json!({"result": short(&ms), "language_x": show(lx), "language_y": show(ly), "language_result": show(lm), "lost": show((lx | ly) & !lm)}),
+                        ));
+                    }
+                    r.nontrivial = x != y && lx & !ly != 0 && ly & !lx != 0;
+                    r.outcome = mcx::fixed_hash(&(op, lm == ALL, lm == lx | ly, ms == BricksSpec::Top, ms.len()));
+                    if lm != lx | ly {
+                        r.stats.push(format!("{op}: result represents more than the union (precision only)"));
+                    }
+                }
+            }
+        }
+        Case::Append { x, y } => {
+            let (xr, yr): (BricksDomain, BricksDomain) = (to_real(x), to_real(y));
+            let want = concat(x.lang(), y.lang());
+            r.transitions = 1;
+            match catch(|| xr.append_string_domain(&yr)) {
+                Err(p) => r.viol.push((format!("panic {} ({op})", site(&p)), json!({"panic": p}))),
+                Ok(a) => {
+                    let s: BricksSpec = from_real(&a);
+                    let la = s.lang();
+                    r.evals = 1;
+                    if want & !la != 0 {
+                        r.viol.push(("append-overapprox".into(), json!({"result": short(&s), "concatenations": show(want), "language_result": show(la), "lost": show(want & !la)})));
+                    }
+                    r.nontrivial = want != 0 && want != ALL && x.len() > 0 && y.len() > 0;
+                    r.outcome = mcx::fixed_hash(&(op, la == want, la == ALL, s.len()));
+                    if la != want {
+                        r.stats.push(format!("{op}: result represents more than the concatenations (precision only)"));
+                    }
+                }
+            }
+        }
+        Case::CiMerge { x, y } | Case::CiAppend { x, y } => {
+            let is_merge = matches!(case, Case::CiMerge { .. });
+            let (xr, yr): (CharacterInclusionDomain, CharacterInclusionDomain) = (to_real(x), to_real(y));
+            let (gx, gy) = (x.gamma(), y.gamma());
+            let want = if is_merge { gx | gy } else { ci_concat(gx, gy) };
+            r.transitions = 1;
+            match catch(|| if is_merge { xr.merge(&yr) } else { xr.append_string_domain(&yr) }) {
+                Err(p) => r.viol.push((format!("panic {} ({op})", site(&p)), json!({"panic": p}))),
+                Ok(m) => {
+                    let ms: CiSpec = from_real(&m);
+                    let gm = ms.gamma();
+                    r.evals = 1;
+                    if want & !gm != 0 {
+                        r.viol.push((
+                            format!("ci-{}-overapprox", if is_merge { "merge" } else { "append" }),
+                            json!({"result": short(&ms), "charsets_wanted": format!("{want:#018b}"), "charsets_represented": format!("{gm:#018b}")}),
+                        ));
+                    }
+                    r.nontrivial = x != y && gx & !gy != 0 && gy & !gx != 0;
+                    r.outcome = mcx::fixed_hash(&(op, gm == want, gm == u16::MAX, gm));
+                    if gm != want {
+                        r.stats.push(format!("{op}: result represents more than required (precision only)"));
+                    }
+                }
+            }
+        }
+        Case::CiFrom { s } => {
+            r.transitions = 1;
+            let want: CiG = 1 << charset_mask(&s.chars().collect());
+            match catch(|| CharacterInclusionDomain::from(s.clone())) {
+                Err(p) => r.viol.push((format!("panic {} ({op})", site(&p)), json!({"panic": p}))),
+                Ok(m) => {
+                    let ms: CiSpec = from_real(&m);
+                    let gm = ms.gamma();
+                    r.evals = 1;
+                    if want & !gm != 0 {
+                        r.viol.push(("ci-from-string".into(), json!({"result": short(&ms)})));
+                    }
+                    r.nontrivial = !s.is_empty();
+                    r.outcome = mcx::fixed_hash(&(op, gm));
+                    if gm != want {
+                        r.stats.push(format!("{op}: result represents more than the string (precision only)"));
+                    }
+                }
+            }
+        }
+    }
+    r
+}
+
+/// How many parked (non-terminating) threads a worker process accumulates before it asks to be
+/// replaced (far below glibc's malloc-arena limit, so a parked thread's arena is never shared).
+const MAX_PARKED: u32 = 40;
+
+/// One thread that runs cases; returns its job sender, result receiver and CPU clock id.
+fn spawn_runner() -> (std::sync::mpsc::Sender<std::sync::Arc<String>>, std::sync::mpsc::Receiver<Report>, i32) {
+    use std::sync::mpsc::channel;
+    let (tx_job, rx_job) = channel::<std::sync::Arc<String>>();
+    let (tx_res, rx_res) = channel::<Report>();
+    let (tx_id, rx_id) = channel::<u64>();
+    std::thread::Builder::new()
+        .stack_size(16 << 20)
+        .spawn(move || {
+            tx_id.send(unsafe { sys::pthread_self() }).ok();
+            while let Ok(line) = rx_job.recv() {
+                let case: Case = match serde_json::from_str(&line) {
+                    Ok(c) => c,
+                    Err(e) => {
+                        eprintln!("MACHINERY-ERROR: worker got a bad case: {e}");
+                        std::process::exit(2);
+                    }
+                };
+                // the line itself stays owned by the main thread (this thread may be parked at any point)
+                drop(line);
+                if tx_res.send(judge(&case)).is_err() {
+                    break;
+                }
+            }
+        })
+        .unwrap_or_else(|e| mcx::machinery(&format!("cannot start runner thread: {e}")));
+    let pt = rx_id.recv().unwrap_or_else(|_| mcx::machinery("runner thread did not start"));
+    let mut clock = 0i32;
+    if unsafe { sys::pthread_getcpuclockid(pt, &mut clock) } != 0 {
+        mcx::machinery("pthread_getcpuclockid failed");
+    }
+    RUNNER_PT.store(pt, Ordering::Relaxed);
+    (tx_job, rx_res, clock)
+}
+static RUNNER_PT: AtomicU64 = AtomicU64::new(0);
+
+/// Worker protocol: one case (JSON) per input line; one reply line per case:
+/// a `Report` as JSON, or `!HANG <cpu_us>`; `!RECYCLE` asks the explorer for a fresh process.
+fn worker_main() -> ! {
+    mcx::install_quiet_panic_hook();
+    let cpu_limit_us: u64 = std::env::var("VERIF_C06_CPU_MS").ok().and_then(|s| s.parse::<u64>().ok()).unwrap_or(1000) * 1000;
+    unsafe {
+        sys::signal(sys::SIGUSR1, sys::park_forever as usize);
+    }
+    // wall-clock guard against a wedged worker (never a verdict: exit code 3 is a machinery error)
+    static PROGRESS: AtomicU64 = AtomicU64::new(0);
+    std::thread::spawn(|| {
+        let mut last = (PROGRESS.load(Ordering::Relaxed), 0u32);
+        loop {
+            std::thread::sleep(std::time::Duration::from_secs(10));
+            let p = PROGRESS.load(Ordering::Relaxed);
+            last = if p == last.0 && p % 2 == 1 { (p, last.1 + 1) } else { (p, 0) };
+            if last.1 >= 60 {
+                eprintln!("MACHINERY-ERROR: worker made no progress for 10 minutes");
+                std::process::exit(3);
+            }
+        }
     });
-    std::thread::sleep(std::time::Duration::from_secs(3));
-    println!("finished within 3s: {}", h.is_finished());
+    let stdin = std::io::stdin();
+    let stdout = std::io::stdout();
+    let mut out = stdout.lock();
+    let (mut tx_job, mut rx_res, mut clock) = spawn_runner();
+    let mut parked = 0u32;
+    for line in stdin.lock().lines() {
+        let Ok(line) = line else { break };
+        if line.is_empty() {
+            continue;
+        }
+        let line = std::sync::Arc::new(line);
+        let start = sys::cpu_us(clock);
+        PROGRESS.fetch_add(1, Ordering::Relaxed); // odd = a case is in flight
+        if tx_job.send(line.clone()).is_err() {
+            eprintln!("MACHINERY-ERROR: runner thread died");
+            std::process::exit(2);
+        }
+        let reply = loop {
+            match rx_res.recv_timeout(std::time::Duration::from_millis(1)) {
+                Ok(rep) => break serde_json::to_string(&rep).unwrap(),
+                Err(std::sync::mpsc::RecvTimeoutError::Timeout) => {
+                    let used = sys::cpu_us(clock) - start;
+                    if used > cpu_limit_us {
+                        // park the runner for good and continue with a fresh one
+                        unsafe {
+                            sys::pthread_kill(RUNNER_PT.load(Ordering::Relaxed), sys::SIGUSR1);
+                        }
+                        parked += 1;
+                        // the parked thread keeps its ends of the old channels; forget ours so nothing is freed under it
+                        let fresh = spawn_runner();
+                        std::mem::forget(std::mem::replace(&mut tx_job, fresh.0));
+                        std::mem::forget(std::mem::replace(&mut rx_res, fresh.1));
+                        clock = fresh.2;
+                        break format!("!HANG {used}");
+                    }
+                }
+                Err(std::sync::mpsc::RecvTimeoutError::Disconnected) => {
+                    eprintln!("MACHINERY-ERROR: runner thread died (harness panic outside catch?)");
+                    std::process::exit(2);
+                }
+            }
+        };
+        PROGRESS.fetch_add(1, Ordering::Relaxed);
+        if reply.starts_with("!HANG") {
+            std::mem::forget(line.clone()); // a parked runner might still hold the line: never free it
+        }
+        let recycle = parked >= MAX_PARKED;
+        let mut s = reply;
+        s.push('\n');
+        if recycle {
+            s.push_str("!RECYCLE\n");
+        }
+        if out.write_all(s.as_bytes()).is_err() || out.flush().is_err() {
+            break;
+        }
+        if recycle {
+            break;
+        }
+    }
     std::process::exit(0);
+}
+
+// ------------------------------------------------------------------ explorer side: worker pool
+
+struct Worker {
+    child: Child,
+    inp: Option<ChildStdin>,
+    out: BufReader<ChildStdout>,
+}
+impl Worker {
+    fn spawn(cpu_ms: u64) -> Worker {
+        let exe = std::env::current_exe().unwrap_or_else(|e| mcx::machinery(&format!("current_exe: {e}")));
+        let mut child = Command::new(exe)
+            .env("VERIF_C06_WORKER", "1")
+            .env("VERIF_C06_CPU_MS", cpu_ms.to_string())
+            .stdin(Stdio::piped())
+            .stdout(Stdio::piped())
+            .stderr(Stdio::inherit())
+            .spawn()
+            .unwrap_or_else(|e| mcx::machinery(&format!("cannot spawn worker: {e}")));
+        let inp = child.stdin.take();
+        let out = BufReader::new(child.stdout.take().unwrap());
+        Worker { child, inp, out }
+    }
+}
+impl Drop for Worker {
+    fn drop(&mut self) {
+        self.inp = None; // EOF: the worker exits by itself
+        let _ = self.child.kill();
+        let _ = self.child.wait();
+    }
+}
+enum Res {
+    Report(Report),
+    /// the call did not return within the worker's CPU limit (microseconds used when it was parked)
+    Hang(u64),
+    /// the worker was terminated by this signal while working on the case
+    Killed(i32),
+    /// the worker exited by itself with this code while working on the case
+    Exited(i32),
+}
+/// Run `lines` (one serialised case each) through `slot`'s worker; a worker that dies is
+/// replaced and the remaining cases are sent to the new one.
+fn run_batch(slot: &mut Option<Worker>, cpu_ms: u64, lines: &[String]) -> Vec<Res> {
+    use std::os::unix::process::ExitStatusExt;
+    let mut res = Vec::with_capacity(lines.len());
+    while res.len() < lines.len() {
+        let w = slot.get_or_insert_with(|| Worker::spawn(cpu_ms));
+        let from = res.len();
+        {
+            let inp = w.inp.as_mut().unwrap();
+            let mut buf = String::new();
+            for l in &lines[from..] {
+                buf.push_str(l);
+                buf.push('\n');
+            }
+            // a broken pipe just means the worker died early; the reads below notice
+            let _ = inp.write_all(buf.as_bytes());
+            let _ = inp.flush();
+        }
+        let mut died = false;
+        let mut recycle = false;
+        for _ in from..lines.len() {
+            let mut reply = String::new();
+            match w.out.read_line(&mut reply) {
+                Ok(n) if n > 0 && reply.starts_with("!HANG ") && reply.ends_with('\n') => res.push(Res::Hang(reply[6..].trim().parse().unwrap_or(0))),
+                Ok(n) if n > 0 && reply.starts_with("!RECYCLE") => {
+                    recycle = true;
+                    break;
+                }
+                Ok(n) if n > 0 && reply.ends_with('\n') => match serde_json::from_str::<Report>(&reply) {
+                    Ok(rep) => res.push(Res::Report(rep)),
+                    Err(e) => mcx::machinery(&format!("worker sent garbage: {e}: {reply}")),
+                },
+                _ => {
+                    died = true;
+                    break;
+                }
+            }
+        }
+        if recycle {
+            *slot = None; // replies so far stand; the rest goes to a fresh process
+            continue;
+        }
+        if died {
+            let mut w = slot.take().unwrap();
+            w.inp = None;
+            let status = w.child.wait().unwrap_or_else(|e| mcx::machinery(&format!("wait: {e}")));
+            res.push(match status.signal() {
+                Some(s) => Res::Killed(s),
+                None => Res::Exited(status.code().unwrap_or(-1)),
+            });
+        }
+    }
+    res
+}
+
+/// CPU limit per case in the sweep workers (a case needs microseconds) and in the confirmation run.
+const CPU_MS_SWEEP: u64 = 3;
+const CPU_MS_CONFIRM: u64 = 1500;
+/// How many non-terminations are confirmed by re-running the case alone with the long limit.
+const MAX_CONFIRMATIONS: u64 = 24;
+
+struct Explorer<'a> {
+    ctx: &'a Ctx,
+    /// confirmed non-terminations so far
+    confirmed: AtomicU64,
+    /// killed in a sweep but not re-run (only after MAX_CONFIRMATIONS confirmed ones)
+    unjudged: AtomicU64,
+    kills: AtomicU64,
+    kill_budget: u64,
+}
+thread_local! {
+    static SLOT: std::cell::RefCell<Option<Worker>> = const { std::cell::RefCell::new(None) };
+}
+impl<'a> Explorer<'a> {
+    fn fold(&self, case: &Case, res: Res, confirmed_run: bool) {
+        let ctx = self.ctx;
+        let cj = || serde_json::to_value(case).unwrap();
+        match res {
+            Res::Report(rep) => {
+                for (k, d) in rep.viol {
+                    ctx.violation(k, cj(), d);
+                }
+                ctx.add_transitions(rep.transitions);
+                ctx.add_evaluations(rep.evals);
+                ctx.add_nontrivial(rep.nontrivial as u64);
+                ctx.outcome(&rep.outcome);
+                for s in rep.stats {
+                    ctx.stat(&s, 1);
+                }
+            }
+            Res::Hang(used_us) => {
+                if confirmed_run {
+                    self.confirmed.fetch_add(1, Ordering::Relaxed);
+                    ctx.add_transitions(1);
+                    ctx.outcome(&("nontermination", case.op()));
+                    ctx.stat("nontermination confirmed (re-run alone with the long CPU limit)", 1);
+                    ctx.violation(format!("nontermination {}", case.op()), cj(), json!({"observed": format!("the call did not return within {CPU_MS_CONFIRM} ms of CPU time ({used_us} us used when it was stopped; normal calls take microseconds)"), "expected": "a result"}));
+                    return;
+                }
+                self.kills.fetch_add(1, Ordering::Relaxed);
+                if self.confirmed.load(Ordering::Relaxed) < MAX_CONFIRMATIONS {
+                    let line = serde_json::to_string(case).unwrap();
+                    let mut slot = None;
+                    let r = run_batch(&mut slot, CPU_MS_CONFIRM, &[line]).pop().unwrap();
+                    if matches!(r, Res::Report(_)) {
+                        ctx.stat("nontermination suspect refuted by the long run (judged normally)", 1);
+                    }
+                    self.fold(case, r, true);
+                } else {
+                    self.unjudged.fetch_add(1, Ordering::Relaxed);
+                    ctx.stat(&format!("stopped after {CPU_MS_SWEEP} ms CPU and not re-run ({MAX_CONFIRMATIONS} non-terminations were already confirmed): {}", case.op()), 1);
+                }
+            }
+            Res::Killed(SIGKILL) => mcx::machinery("a worker was killed by SIGKILL (out of memory?)"),
+            Res::Killed(s) => {
+                ctx.add_transitions(1);
+                ctx.violation(format!("crash signal {s} ({})", case.op()), cj(), json!({"observed": format!("the worker process died with signal {s}")}));
+            }
+            Res::Exited(c) => mcx::machinery(&format!("a worker exited with code {c}")),
+        }
+    }
+
+    /// Run cases `0..n` (made by `make`) through the worker pool.
+    fn sweep(&self, name: &str, n: u64, make: &(dyn Fn(u64) -> Case + Sync)) {
+        const BATCH: u64 = 24;
+        let chunks = (n + BATCH - 1) / BATCH;
+        let skipped = AtomicU64::new(0);
+        let kills_before = self.kills.load(Ordering::Relaxed);
+        par_for(chunks, 1, |c| {
+            let lo = c * BATCH;
+            let hi = (lo + BATCH).min(n);
+            if self.kills.load(Ordering::Relaxed) - kills_before >= self.kill_budget {
+                skipped.fetch_add(hi - lo, Ordering::Relaxed);
+                return;
+            }
+            let cases: Vec<Case> = (lo..hi).map(make).collect();
+            let lines: Vec<String> = cases.iter().map(|c| serde_json::to_string(c).unwrap()).collect();
+            let res = SLOT.with(|s| run_batch(&mut s.borrow_mut(), CPU_MS_SWEEP, &lines));
+            for (case, r) in cases.iter().zip(res) {
+                self.ctx.add_states(1);
+                self.ctx.sample(|| serde_json::to_value(case).unwrap());
+                self.fold(case, r, false);
+            }
+        });
+        let sk = skipped.load(Ordering::Relaxed);
+        if sk > 0 {
+            self.ctx.cap_hit(&format!("{name}: {sk} of {n} cases not run: the sweep's budget of {} stopped (non-terminating) calls was used up", self.kill_budget));
+        }
+        self.ctx.stat(&format!("cases: {name}"), n - sk);
+        eprintln!("[C06] {name}: {n} cases ({sk} skipped), kills so far {}, done at {:.1}s", self.kills.load(Ordering::Relaxed), self.ctx.elapsed_s());
+    }
+}
+
+// ------------------------------------------------------------------ families
+
+/// The `i`-th list of at most `max_len` bricks over `alpha` (shorter lists first).
+fn list_at(alpha: &[BrickSpec], max_len: u32, i: u64) -> BricksSpec {
+    BricksSpec::Value(mcx::space::seq_decode(i, alpha.len() as u64, max_len).into_iter().map(|k| alpha[k].clone()).collect())
+}
+fn all_lists(alpha: &[BrickSpec], max_len: u32) -> Vec<BricksSpec> {
+    (0..mcx::space::seq_count(alpha.len() as u64, max_len)).map(|i| list_at(alpha, max_len, i)).collect()
+}
+/// Family for the pair operations: Top, all lists of <= 1 brick over `one`, all 2-brick lists over `two`.
+fn pair_family(one: &[BrickSpec], two: &[BrickSpec]) -> Vec<BricksSpec> {
+    let mut v = vec![BricksSpec::Top];
+    v.extend(all_lists(one, 1));
+    for a in two {
+        for b in two {
+            v.push(BricksSpec::Value(vec![a.clone(), b.clone()]));
+        }
+    }
+    v
+}
+fn ci_values() -> Vec<CiSpec> {
+    let abc = ['a', 'b', 'c'];
+    let set = |m: u32| -> std::collections::BTreeSet<char> { (0..3).filter(|i| m >> i & 1 == 1).map(|i| abc[i as usize]).collect() };
+    let mut v = vec![CiSpec::Top];
+    for c in 0..8u32 {
+        for p in 0..8u32 {
+            if c & !p == 0 {
+                v.push(CiSpec::Value((CharSetSpec::Value(set(c)), CharSetSpec::Value(set(p)))));
+            }
+        }
+        v.push(CiSpec::Value((CharSetSpec::Value(set(c)), CharSetSpec::Top)));
+    }
+    v
+}
+fn strings_upto(alpha: &[char], max_len: u32) -> Vec<String> {
+    (0..mcx::space::seq_count(alpha.len() as u64, max_len)).map(|i| mcx::space::seq_decode(i, alpha.len() as u64, max_len).into_iter().map(|k| alpha[k]).collect()).collect()
+}
+
+fn main() {
+    if std::env::var("VERIF_C06_WORKER").is_ok() {
+        worker_main();
+    }
+    let ctx = Ctx::new("C06");
+    match self_check() {
+        Ok(n) => ctx.stat("oracle self check: vectors", n),
+        Err(e) => mcx::machinery(&e),
+    }
+    let th = ctx.thorough();
+    let ex = Explorer { ctx: &ctx, confirmed: AtomicU64::new(0), unjudged: AtomicU64::new(0), kills: AtomicU64::new(0), kill_budget: if th { 150_000 } else { 40_000 } };
+    if let Some(c) = ctx.replay_case() {
+        let case: Case = serde_json::from_value(c.clone()).unwrap_or_else(|e| mcx::machinery(&format!("bad case: {e}")));
+        let mut slot = None;
+        let r = run_batch(&mut slot, CPU_MS_CONFIRM, &[serde_json::to_string(&case).unwrap()]).pop().unwrap();
+        ex.fold(&case, r, true);
+        ctx.finish("replay of one case", false);
+    }
+
+    // ---- normalize: every list of <= 2 (quick) / <= 3 (thorough) bricks over the full alphabet
+    let full = brick_alphabet_full();
+    let max_len = if th { 3 } else { 2 };
+    let n_lists = mcx::space::seq_count(full.len() as u64, max_len);
+    // a fixed multiplicative permutation spreads the order over the space (only matters if the kill budget runs out)
+    let mult = 1_000_003u64;
+    assert!(gcd(mult, n_lists) == 1);
+    ex.sweep("normalize", n_lists, &|i| Case::Normalize { x: list_at(&full, max_len, (i as u128 * mult as u128 % n_lists as u128) as u64) });
+
+    // ---- merge / widen / append: all ordered pairs of a sub-family
+    let fam = if th {
+        let two = brick_alphabet(&[0b0000, 0b0010, 0b0100, 0b0110, 0b0011], &[(0, 0), (0, 1), (1, 1), (1, 2), (2, 2), (0, INF)]);
+        pair_family(&full, &two)
+    } else {
+        let one = brick_alphabet(&[0b0000, 0b0001, 0b0010, 0b0100, 0b0110, 0b0011, 0b1000, 0b1010], &MINMAX);
+        let two = brick_alphabet(&[0b0010, 0b0100, 0b0110], &[(0, 1), (1, 1), (0, INF)]);
+        pair_family(&one, &two)
+    };
+    let nf = fam.len() as u64;
+    ctx.stat("pair family size (bricks)", nf);
+    ex.sweep("merge", nf * nf, &|i| Case::Merge { x: fam[(i / nf) as usize].clone(), y: fam[(i % nf) as usize].clone() });
+    ex.sweep("append", nf * nf, &|i| Case::Append { x: fam[(i / nf) as usize].clone(), y: fam[(i % nf) as usize].clone() });
+    let fam_v: Vec<BricksSpec> = fam.iter().filter(|x| **x != BricksSpec::Top).cloned().collect();
+    let nv = fam_v.len() as u64;
+    ex.sweep("widen", nv * nv, &|i| Case::Widen { x: fam_v[(i / nv) as usize].clone(), y: fam_v[(i % nv) as usize].clone() });
+
+    // ---- character inclusion: all values over {a,b,c}
+    let ci = ci_values();
+    let nc = ci.len() as u64;
+    ctx.stat("character inclusion values", nc);
+    ex.sweep("ci-merge", nc * nc, &|i| Case::CiMerge { x: ci[(i / nc) as usize].clone(), y: ci[(i % nc) as usize].clone() });
+    ex.sweep("ci-append", nc * nc, &|i| Case::CiAppend { x: ci[(i / nc) as usize].clone(), y: ci[(i % nc) as usize].clone() });
+    let strs = strings_upto(&['a', 'b', 'c'], 3);
+    ex.sweep("ci-from", strs.len() as u64, &|i| Case::CiFrom { s: strs[i as usize].clone() });
+
+    ctx.stat("calls stopped by the CPU limit of the sweep", ex.kills.load(Ordering::Relaxed));
+    let unj = ex.unjudged.load(Ordering::Relaxed);
+    if unj > 0 {
+        ctx.cap_hit(&format!("{unj} calls were stopped by the {CPU_MS_SWEEP} ms CPU limit of the sweep and not re-run with the long limit, because {MAX_CONFIRMATIONS} non-terminations had already been confirmed; these cases have no verdict"));
+    }
+    ctx.set(
+        "bounds",
+        json!({
+            "brick alphabet": "Top, or string set = any subset of {\"\",a,b,ab} with (min,max) in {(0,0),(0,1),(1,1),(0,2),(1,2),(2,2),(1,3),(0,inf),(1,inf)}, inf = u32::MAX: 145 bricks",
+            "normalize": format!("every list of <= {max_len} bricks: {n_lists} values"),
+            "merge/append/widen": format!("all ordered pairs of {nf} values: Top, all lists of <= 1 brick ({}), all 2-brick lists over a reduced alphabet", if th { "full alphabet" } else { "8 string sets x 9 (min,max)" }),
+            "character inclusion": "all 36 values over {a,b,c} (certain ⊆ possible, possible may be Top, plus Top): all ordered pairs for merge and append; From<String> for all 40 strings of length <= 3",
+            "concretisation": "all 127 strings of length <= 6 over {a,b}",
+        }),
+    );
+    ctx.assume("bricks satisfy min <= max; normalize and widen are called on non-Top values only (as merge does)");
+    ctx.assume("a brick [S]^{min,max} represents the concatenations of k elements of S for min <= k <= max; an empty S with min = 0 represents the empty string");
+    ctx.assume("character inclusion: the set of certainly contained characters is never Top (the constructors cannot produce it)");
+    ctx.assume(&format!("a call that uses more than {CPU_MS_CONFIRM} ms of CPU time when re-run alone is reported as non-terminating (normal calls take microseconds)"));
+    ctx.finish(
+        "every value / ordered pair of the stated families is one case, run through the real operation in a worker process and compared by bounded concretisation; non-trivial = normalize changed the list and the language is neither empty nor everything / the two inputs are incomparable",
+        true,
+    );
+}
+fn gcd(a: u64, b: u64) -> u64 {
+    if b == 0 {
+        a
+    } else {
+        gcd(b, a % b)
+    }
 }
